@@ -377,6 +377,10 @@ fn arg() -> impl Strategy<Value = String> {
 		1 => Just("a\\b".to_string()),
 		1 => Just("-c".to_string()),
 		1 => Just("--".to_string()),
+		// a leading @ means "argument file" to the CLI, but only before the -- separator
+		1 => Just("@foo".to_string()),
+		1 => Just("@".to_string()),
+		1 => Just("@@x y".to_string()),
 		1 => Just("ünï©ode ✓".to_string()),
 		2 => "[ -~]{0,12}",
 		1 => "\\PC{0,8}".prop_map(|s| s.replace('\0', "")),
@@ -445,11 +449,11 @@ pub fn check(e: &Engine) {
 			threads: 8,
 			confirm: 1,
 			max_shrink_iters: 30,
-			rule: "the real CLI (wx shim) with -1: --shell=<helper [opts]> joins the words with single spaces behind -c; -n passes the words verbatim",
+			rule: "the real CLI (wx shim) with -1: --shell=<helper [opts]> joins the words with single spaces behind -c; -n passes the words verbatim; words include leading/trailing/double spaces, non-ASCII, $X, *, quotes and words starting with @ (argument-file syntax, which must not apply after the -- separator)",
 			confirm_any: &[],
 		},
 		&|| {
-			(any::<bool>(), proptest::collection::vec("[a-z-]{1,5}", 0..3), proptest::collection::vec(prop_oneof![3 => "[a-z]{1,6}", 1 => Just("b  c".to_string()), 1 => Just("x y".to_string()), 1 => Just(" lead".to_string()), 1 => Just("trail ".to_string()), 1 => Just("ü".to_string()), 1 => Just("$X".to_string())], 1..5))
+			(any::<bool>(), proptest::collection::vec("[a-z-]{1,5}", 0..3), proptest::collection::vec(prop_oneof![3 => "[a-z]{1,6}", 1 => Just("b  c".to_string()), 1 => Just("x y".to_string()), 1 => Just(" lead".to_string()), 1 => Just("trail ".to_string()), 1 => Just("ü".to_string()), 1 => Just("$X".to_string()), 1 => Just("@foo".to_string()), 1 => Just("@".to_string()), 1 => Just("@@x".to_string()), 1 => Just("a@b".to_string()), 1 => Just("*".to_string()), 1 => Just("'q'".to_string())], 1..5))
 				.prop_map(|(no_shell, shell_opts, mut words)| {
 					if words[0].starts_with('-') || words[0].is_empty() {
 						words[0] = "w".into();
